@@ -59,6 +59,103 @@ def loads_ok(r):
     return r.rc >= 0 and r.rc not in (139, 134) and not LOAD_FAIL.search(r.out + r.err)
 
 
+class InDiskKill:
+    """content copies stored INSIDE the data disks (d1/snapraid.content, d2/snapraid.content, a third one outside): a sync killed at
+    every call of every content save (the save before the loop, the autosave, the final save) leaves stale `<content>.tmp` files ON the
+    data disks.  The resumed sync must complete (exit 0), must not record a .tmp / .lock / content file as data, and the stale
+    temporaries must be gone afterwards."""
+
+    def __init__(self, chk, scn, cache, autosave_at=0):
+        self.chk, self.scn, self.cache, self.autosave_at = chk, scn, cache, autosave_at
+        self.force = ['--force-empty'] if scn.name == 'wipe' else []
+        self.opts = ['--test-io-cache', str(cache)] + (['--test-force-autosave-at', str(autosave_at)] if autosave_at else []) + self.force
+        self.stats = {'kills': 0, 'resumed_ok': 0, 'stale_tmp_seen': 0}
+        self.desc = dict(scn.describe(), io_cache=cache, autosave_at=autosave_at, content_in_disks=True)
+        a = scn.build()
+        log = os.path.join(a.root, 'ref.log')
+        r = a.run('sync', *self.opts, shim_env={'VSHIM_LOG': log})
+        if r.rc != 0:
+            raise RuntimeError('reference sync failed: %r' % r)
+        self.calls = shim_log(log)
+        self.root_ref = a.root
+        self.check_state(a, 'an uninterrupted sync', self.desc)
+        drop(a)
+
+    def points(self):
+        pts = []
+        for (n, call, path, rest) in self.calls:
+            if 'snapraid.content' not in path:
+                continue
+            pts.append((n, 'before'))
+            pts.append((n, 'after'))
+            if call in WRITE_CALLS:
+                pts.append((n, 'short'))
+        return pts
+
+    def recorded_aux(self, a):
+        bad = []
+        for i in range(len(a.content_files)):
+            try:
+                st = a.content(i)
+            except Exception as e:
+                bad.append('copy %d does not decode: %s' % (i, e))
+                continue
+            for d, dd in st['disks'].items():
+                for f in dd['files']:
+                    sub = f['sub'].decode('latin1')
+                    if 'snapraid.content' in sub or sub.endswith('.tmp') or sub.endswith('.lock'):
+                        bad.append('%s:%s' % (d, sub))
+        return sorted(set(bad))
+
+    def check_state(self, a, what, rep):
+        aux = self.recorded_aux(a)
+        if aux:
+            self.chk.violation('indisk_recorded', '%s records content/temporary files as data: %s' % (what, aux[:3]), rep)
+        left = [c + '.tmp' for c in a.content_files if os.path.exists(c + '.tmp')]
+        if left:
+            self.chk.violation('indisk_tmp_left', '%s leaves stale temporaries behind: %s' % (what, [l.replace(a.root, '') for l in left]), rep)
+        return not aux and not left
+
+    def kill_case(self, pt):
+        k, mode = pt
+        chk = self.chk
+        if len(chk.violations) > 8:
+            return
+        a = self.scn.build()
+        rep = dict(self.desc, kill='%d:%s' % (k, mode), call=' '.join(map(str, self.calls[k - 1][1:3])).replace(self.root_ref, ''))
+        try:
+            r = a.run('sync', *self.opts, shim_env={'VSHIM_KILL': '%d:%s' % (k, mode) if mode != 'before' else str(k)})
+            self.stats['kills'] += 1
+            if r.rc not in (-9, 137):
+                if r.rc != 0:
+                    chk.violation('kill_rc', 'sync with VSHIM_KILL=%d:%s neither killed nor successful (rc %d): %s' % (k, mode, r.rc, r.err[-200:]), rep)
+                return
+            stale = [c + '.tmp' for c in a.content_files if os.path.exists(c + '.tmp')]
+            if stale:
+                self.stats['stale_tmp_seen'] += 1
+            rep['stale_tmp_after_kill'] = [x.replace(a.root, '') for x in stale]
+            rs = a.run('sync', *self.force)
+            if rs.rc != 0:
+                chk.violation('indisk_resume', 'content copies inside the data disks: the sync after a sync killed at call %d (%s, %s) does not complete (rc %d; stale %s): %s' % (
+                    k, mode, rep['call'], rs.rc, rep['stale_tmp_after_kill'], (rs.err or rs.out)[-300:]), rep)
+                return
+            ok = self.check_state(a, 'the sync resumed after a kill at call %d (%s)' % (k, mode), rep)
+            st = a.content()
+            perr, _ = a.check_parity(st)
+            left = all_synced(a, st)
+            if perr or left:
+                ok = False
+                chk.violation('indisk_resume', 'content copies inside the data disks: after the resumed sync (kill at call %d %s) stripes %s are unsynced, parity errors %s' % (k, mode, left, perr[:2]), rep)
+            rd = a.run('diff')
+            if rd.rc != 0:
+                ok = False
+                chk.violation('indisk_resume', 'content copies inside the data disks: `diff` after the resumed sync reports differences (rc %d): %s' % (rd.rc, rd.out[-200:]), rep)
+            if ok:
+                self.stats['resumed_ok'] += 1
+        finally:
+            drop(a)
+
+
 class SyncKill:
     """one configuration: scenario, np, io_cache, number of content copies, autosave position"""
 
@@ -1017,6 +1114,21 @@ def main(tier, replay=None):
         lap('sync_kill %s nd%d np%d c%d a%d %s' % (name, nd, np_, cache, autosave_at, ' '.join(extra) + str(geo or '')))
         if len(chk.violations) > 8:
             break
+    # ---- content copies inside the data disks: kills at every call of every content save, then the resumed sync
+    istats = {}
+    for (name, nd, np_, cache, ncontent, autosave_at) in ([('adds', 2, 1, 3, 3, 5), ('adds', 2, 1, 1, 1, 0), ('mixed', 3, 2, 3, 2, 0)] if quick else
+                                                          [('adds', 2, 1, 3, 3, 5), ('adds', 2, 1, 1, 1, 0), ('mixed', 3, 2, 3, 2, 0), ('adds', 2, 2, 8, 2, 5), ('fresh', 3, 1, 3, 3, 0), ('wipe', 3, 1, 1, 2, 0)]):
+        try:
+            IK = InDiskKill(chk, Scn(binary, shim, name, nd, np_, ncontent=ncontent, content_in_disks=True), cache, autosave_at)
+        except Exception as e:
+            chk.violation('setup', 'content-in-disk configuration %s cannot be prepared: %s' % ((name, nd, np_, ncontent), e), {}, no_input=True)
+            continue
+        pts = IK.points()
+        pmap(IK.kill_case, pts)
+        for k, v in IK.stats.items():
+            istats[k] = istats.get(k, 0) + v
+        istats['configurations'] = istats.get('configurations', 0) + 1
+    lap('content_in_disks')
     # ---- delete / interrupted sync / identical re-add
     rstats = {}
     for (nd_, np_, cache_) in ([(2, 1, 3)] if quick else [(2, 1, 3), (3, 2, 1), (2, 2, 8)]):
@@ -1090,10 +1202,10 @@ def main(tier, replay=None):
     lap('fix_leftovers')
     probe = unrecoverable_rerun_probe(binary, shim)
     lap('probe')
-    n_eval = tot.get('kills', 0) + sstats['signals'] + fstats.get('kills', 0) + rstats.get('histories', 0) + rstats.get('resave_histories', 0) + lstats.get('partial_runs', 0) + lstats.get('signals', 0)
+    n_eval = tot.get('kills', 0) + sstats['signals'] + fstats.get('kills', 0) + rstats.get('histories', 0) + rstats.get('resave_histories', 0) + istats.get('kills', 0) + lstats.get('partial_runs', 0) + lstats.get('signals', 0)
     chk.cov.update({'evaluations': n_eval, 'distinct_nontrivial': n_eval,
                     'rule': 'EVERY numbered state-changing call k of a reference sync (and of a reference fix) x {before, after, short for write/pwrite}: one fresh deterministic array per point, killed there; SIGINT/SIGTERM at every parity write of slowed syncs; non-trivial = runs really interrupted',
-                    'sync_kill_configurations': conf_sum, 'sync_kill': tot, 'graceful_stop': sstats, 'fix_kill_configurations': fconf, 'fix_kill': fstats, 'delete_kill_identical_readd': rstats, 'second_fix_over_unrecoverable_leftovers': lstats,
+                    'sync_kill_configurations': conf_sum, 'sync_kill': tot, 'graceful_stop': sstats, 'fix_kill_configurations': fconf, 'fix_kill': fstats, 'delete_kill_identical_readd': rstats, 'content_copies_inside_data_disks': istats, 'second_fix_over_unrecoverable_leftovers': lstats,
                     'torn_write_np1_unrecoverable': tot.get('torn_write_np1_unrecoverable', 0), 'reduced_hash_np1_unrecoverable': tot.get('reduced_hash_np1_unrecoverable', 0), 'autosave_race': aw,
                     'fix_rerun_after_unrecoverable_result (measured, not judged)': probe,
                     'traces_validated_against_impl': traces_ok, 'phase_seconds': phase})
